@@ -413,4 +413,118 @@ theorem estimate_truthy_single (dur : Rat) (div : Nat) (e : Est) (h : estimate d
   · subst h1; simp [Est.truthy] at ht
   · exact h1
 
+/-! ### composite answers (`return_com_durations=True`) -/
+
+
+/-- exact value of a composite row: the sum of its members at one division per quarter -/
+def compRowOK (p : Rat × List SymDur) : Bool :=
+  match numericSum p.2 1 with
+  | some c => decide (absR (c - p.1) ≤ 1 / 1125899906842624) && decide ((c * 24).den = 1)
+  | none => false
+
+theorem comp_rows : COMPOSITE_DURS.length = SYM_COMPOSITE_DURS.length ∧
+    (COMPOSITE_DURS.zip SYM_COMPOSITE_DURS).all compRowOK = true := by
+  decide +kernel
+
+theorem numericSum_scale : ∀ (l : List SymDur) (c v : Rat), numericSum l 1 = some c → numericSum l v = some (v * c) := by
+  intro l
+  induction l with
+  | nil => intro c v h; simp [numericSum] at h ⊢; rw [← h]; simp
+  | cons sd rest ih =>
+    intro c v h
+    unfold numericSum at h ⊢
+    simp only [List.foldr_cons] at h ⊢
+    cases h1 : symbolicToNumeric sd 1 with
+    | none => rw [h1] at h; simp at h
+    | some x =>
+      cases h2 : numericSum rest 1 with
+      | none => unfold numericSum at h2; rw [h1, h2] at h; simp at h
+      | some y =>
+        have h2' := h2
+        unfold numericSum at h2'
+        rw [h1, h2'] at h
+        simp only [Option.some.injEq] at h
+        have i1 := numeric_scale sd x v h1
+        have i2 := ih y v h2
+        unfold numericSum at i2
+        rw [i1, i2]
+        simp only [Option.some.injEq]
+        rw [← h]; ring
+
+
+theorem comp_row (j : Nat) (cf : Rat) (sc : List SymDur) (hd : COMPOSITE_DURS[j]? = some cf)
+    (hs : SYM_COMPOSITE_DURS[j]? = some sc) :
+    ∃ c, numericSum sc 1 = some c ∧ |c - cf| ≤ 1 / 1125899906842624 ∧ (c * 24).den = 1 := by
+  have hz : (COMPOSITE_DURS.zip SYM_COMPOSITE_DURS)[j]? = some (cf, sc) := by
+    rw [List.getElem?_zip_eq_some]; exact ⟨hd, hs⟩
+  have hm := List.mem_of_getElem? hz
+  have := (List.all_eq_true.mp comp_rows.2) _ hm
+  unfold compRowOK at this
+  simp only at this
+  split at this
+  · rename_i c hc
+    simp only [Bool.and_eq_true, decide_eq_true_eq] at this
+    exact ⟨c, hc, by rw [← absR_eq]; exact this.1, this.2⟩
+  · simp at this
+
+/-- with `return_com_durations=True`: the tied values of a composite answer add up to the duration
+    (for every divisions value up to 2⁴⁰; the composite table holds binary64 values) -/
+theorem composite_back (dur div : Nat) (hdiv : 0 < div) (hbig : div ≤ 1099511627776) (c : Bool) (l : List SymDur)
+    (h : estimate (dur : Rat) div c = some (.composite l)) : numericSum l div = some (dur : Rat) := by
+  have hdivq : (0 : Rat) < div := by exact_mod_cast hdiv
+  unfold estimate at h
+  have hdiv0 : ¬ (div = 0) := by omega
+  simp only [hdiv0, if_false] at h
+  split at h
+  · simp at h
+  · split at h
+    · simp at h
+    · split at h
+      · split at h
+        · simp at h
+        · unfold estimateRest at h
+          simp only at h
+          split at h
+          · rename_i cf sc hcf hsc
+            split at h
+            · rename_i hclose
+              cases c with
+              | false => simp at h
+              | true =>
+                simp only [if_true, Option.some.injEq, Est.composite.injEq] at h
+                subst h
+                obtain ⟨ce, hnum, hnear, hden⟩ := comp_row _ cf sc hcf hsc
+                rw [numericSum_scale sc ce div hnum]
+                rw [absR_eq] at hclose
+                have e1 : (dur : Rat) / div - cf = ((dur : Rat) - cf * div) / div := by field_simp
+                rw [e1, abs_div, abs_of_pos hdivq, div_lt_div_iff_of_pos_right hdivq] at hclose
+                have hbq : (div : Rat) ≤ 1099511627776 := by exact_mod_cast hbig
+                have hz : (dur : Rat) - ce * div = 0 := by
+                  apply zero_of_scaled_small _ 24 (by norm_num)
+                  · have := den_one_comb ce 24 (dur : Int) (div : Int) (by simpa using hden)
+                    simpa using this
+                  · have t1 : |(dur : Rat) - ce * div| ≤ |(dur : Rat) - cf * div| + |ce - cf| * div := by
+                      have : (dur : Rat) - ce * div = ((dur : Rat) - cf * div) - (ce - cf) * div := by ring
+                      rw [this]
+                      calc |((dur : Rat) - cf * div) - (ce - cf) * div|
+                          ≤ |(dur : Rat) - cf * div| + |(ce - cf) * div| := abs_sub _ _
+                        _ = |(dur : Rat) - cf * div| + |ce - cf| * div := by rw [abs_mul, abs_of_pos hdivq]
+                    have t2 : |ce - cf| * (div : Rat) ≤ 1 / 1125899906842624 * 1099511627776 :=
+                      mul_le_mul hnear hbq (le_of_lt hdivq) (by norm_num)
+                    unfold eps at hclose
+                    norm_num at t2
+                    linarith
+                congr 1; linarith
+            · split at h
+              · simp at h
+              · unfold tupletGuess at h
+                simp only at h
+                split at h
+                · split at h
+                  · split at h <;> simp at h
+                  · simp at h
+                · simp at h
+          · simp at h
+      · simp at h
+
 end C11Dur
